@@ -399,12 +399,12 @@ def opsig(i):
     return f"{op.family}:{op.kind}"
 
 
-FAM_CAP = {"quick": 6, "thorough": 8}  # operations of one family used in the deeper family-local histories
+FAM_CAP = {"quick": 6, "thorough": 7}  # operations of one family used in the deeper family-local histories
 # full: every sequence of that length; related: the probe (last operation) shares its family with an earlier operation of the
 # sequence or an environment move precedes it; local: sequences over one family + environment moves
 DEPTHS = {
     "quick": {"full": 2, "related": 3, "local": 5},
-    "thorough": {"full": 3, "related": 4, "local": 6},
+    "thorough": {"full": 3, "related": 3, "local": 6},  # (related depth 4 over ~125 operations would be 2.4 x 10^8 indices)
 }
 
 
